@@ -47,7 +47,9 @@ pub fn gen_consts(ch: &mut Ch) -> Vec<ConstDef> {
     let n = ch.usize_range(1, 10);
     let mut out: Vec<ConstDef> = Vec::new();
     for i in 0..n {
-        let name = match ch.below(6) {
+        let kw = ["in", "dyn", "box"];
+        let name = match ch.below(7) {
+            6 if !out.iter().any(|c| kw.contains(&c.name.as_str())) => (*ch.pick(&kw)).to_string(),
             0 => format!("C_{i}"),
             1 => format!("k_{i}"),
             2 => format!("Größe_{i}"),
@@ -187,7 +189,7 @@ pub fn probe_source(sh: &Shader) -> String {
             ConstVal::Bool(_) => ("bool", "v.to_string()"),
         };
         // the explicit annotation makes rustc check the exported type
-        writeln!(s, "    {{ let v: {ty} = CASEMOD::{}; out.insert({:?}.into(), json!({conv})); }}", c.name, c.name).unwrap();
+        writeln!(s, "    {{ let v: {ty} = CASEMOD::{}; out.insert({:?}.into(), json!({conv})); }}", crate::expect::rid(&c.name), c.name).unwrap();
     }
     s.push_str("    out.into()\n}\n");
     s
